@@ -49,13 +49,14 @@ type Explorer struct {
 	StopAtFirst bool
 	NoPrune     bool
 
-	visited map[uint64]int // fingerprint -> best remaining budget expanded
+	visited u64map // fingerprint -> 1 + best remaining budget expanded (not a Go map: see u64map)
+	inited  bool
 	Res     Result
 }
 
 func (e *Explorer) init() {
-	if e.visited == nil {
-		e.visited = map[uint64]int{}
+	if !e.inited {
+		e.inited = true
 		e.Res.Outcomes = map[string]int{}
 	}
 }
@@ -68,8 +69,8 @@ func (e *Explorer) RunItem(it Item) []Item {
 	if !e.NoPrune {
 		remaining := e.Bound - it.Cost
 		cfg.PruneAt = func(fp uint64) bool {
-			best, ok := e.visited[fp]
-			return ok && best >= remaining
+			best := e.visited.get(fp)
+			return best > 0 && int(best)-1 >= remaining
 		}
 	}
 	x := Run(it.Prefix, cfg, e.Body)
@@ -107,13 +108,13 @@ func (e *Explorer) RunItem(it Item) []Item {
 		}
 		remaining := e.Bound - cost
 		if !e.NoPrune {
-			if best, ok := e.visited[p.FP]; ok && best >= remaining {
+			if best := e.visited.get(p.FP); best > 0 && int(best)-1 >= remaining {
 				e.Res.Pruned++
 				// an equivalent state was already expanded with at least this budget:
 				// nothing below this point is new
 				break
 			}
-			e.visited[p.FP] = remaining
+			e.visited.set(p.FP, uint64(remaining+1))
 		}
 		for alt := 1; alt < p.N; alt++ {
 			c := cost + p.Costs[alt]
@@ -128,7 +129,7 @@ func (e *Explorer) RunItem(it Item) []Item {
 			kids = append(kids, Item{np, c})
 		}
 	}
-	e.Res.States = len(e.visited)
+	e.Res.States = e.visited.n
 	return kids
 }
 
@@ -194,4 +195,9 @@ func (r *Result) SortedOutcomes() []string {
 }
 
 // Visited exposes the fingerprints expanded so far.
-func (e *Explorer) Visited() map[uint64]int { e.init(); return e.visited }
+func (e *Explorer) Visited() []uint64 {
+	e.init()
+	out := make([]uint64, 0, e.visited.n)
+	e.visited.each(func(k, _ uint64) { out = append(out, k) })
+	return out
+}
